@@ -56,6 +56,11 @@ def check_C14(ctx):
                           dict(src_hex=c["src_hex"][:2000], name=c["name"][:100]), impl=r.get("dump_err"), theorem="C14_layout",
                           key="dump-fails")
             continue
+        for l in r.get("loads", []):
+            if l["class"] != "ok" or l.get("parts") != r["parts"]:
+                ctx.violation("a version-1.1 file written by this build is not read back by it: LoadProg %s %s" % (l["class"], l.get("label", "")),
+                              dict(src_hex=c["src_hex"][:2000], name=c["name"][:100], dump_hex=r["dump"][:4000]), impl=l,
+                              theorem="C14_decode_dump", key="fresh-load:" + l["class"])
         meta[c["id"]] = (c, r)
         items.append(("fmtdecode", c["id"] + "/dec", bytes.fromhex(r["dump"])))
         items.append(("fmtencode", c["id"] + "/enc", parse_parts(r["parts"])))
